@@ -10,7 +10,8 @@ Transcribed from
                           enact inserted FIRST in the named frame when an `in frame` clause is present)
   ioflo/base/framing.py   Framer.enterAll / segue / recur, Frame.enter / precur / exit
                           Framer.checkEnter / Frame.checkEnter (entry needs `let me if …`)
-                          (a single framer with a flat list of frames, no auxiliaries)
+                          Frame.traceOutline, Framer.ExEn
+                          (a single framer whose frames may be nested with `in`, no auxiliaries)
 
 Time is the store stamp.  The code only ever compares stamps that were copied from `store.stamp`
 (`>`, `==`, `!=`), so time is modelled by the tick index (`Nat`); the order is all that matters.
@@ -218,6 +219,7 @@ deriving DecidableEq, Repr
 
 structure FrameSrc where
   name : String
+  over : Option String       -- `frame name in over`
   guards : List Guard        -- beacts, in order
   enter : List Write
   recur : List Write
@@ -245,6 +247,7 @@ deriving DecidableEq, Repr
 
 structure Frame where
   name : String
+  over : Option Nat
   guards : List Guard
   enter : List Write
   recur : List Write
@@ -271,7 +274,7 @@ def insertEnact (en : List (List MarkRef)) (i : Nat) (r : MarkRef) : List (List 
   en.modify i (fun l => if r ∈ l then l else r :: l)
 
 inductive ResolveErr where
-  | badFar | badNext | badNeedFrame
+  | badFar | badNext | badNeedFrame | badOver
 deriving DecidableEq, Repr
 
 /-- the frame a need names: its own frame for no clause / `me`, else the named frame -/
@@ -320,13 +323,22 @@ def resolveTranss (names : List String) (home : Nat) :
     let (ts', pl) ← resolveTranss names home pl ts
     return (⟨far, ns⟩ :: ts', pl)
 
+/-- `Frame.resolveOverLinks` -/
+def resolveOver (names : List String) : Option String → Except ResolveErr (Option Nat)
+  | none => .ok none
+  | some o =>
+    match frameIdx? names o with
+    | some j => .ok (some j)
+    | none => .error .badOver
+
 def resolveFrames (names : List String) :
     Nat → Placement → List FrameSrc → Except ResolveErr (List Frame × Placement)
   | _, pl, [] => .ok ([], pl)
   | i, pl, f :: fs => do
     let (ts, pl) ← resolveTranss names i pl f.trans
+    let ov ← resolveOver names f.over
     let (fs', pl) ← resolveFrames names (i + 1) pl fs
-    return (⟨f.name, f.guards, f.enter, f.recur, f.exit, ts⟩ :: fs', pl)
+    return (⟨f.name, ov, f.guards, f.enter, f.recur, f.exit, ts⟩ :: fs', pl)
 
 structure Resolved where
   frames : List Frame
@@ -402,24 +414,79 @@ def evalGuard (w : World) (g : Guard) : Bool :=
     | none => false
   if g.neg then !r else r
 
-/-- `Framer.checkEnter(enters = [far])` → `Frame.checkEnter`: every entry need of the far frame holds -/
-def enterOk (w : World) (frames : List Frame) (far : Nat) : Bool :=
-  ((frames[far]?.map (·.guards)).getD []).all (evalGuard w)
+/-! #### outlines (`Frame.traceOutline`) and `Framer.ExEn` -/
 
-/-- `Frame.precur` over `Transiter.action`: the first transition whose needs all hold AND whose far
-frame admits entry.  A transition whose needs hold but whose far frame refuses entry returns `None`
-before its tract acts run: nothing changes and the next transition is tried. -/
-def firstTrans (w : World) (frames : List Frame) : List Trans → Option Trans
+def overOf (fr : List Frame) (i : Nat) : Option Nat := (fr[i]?).bind (·.over)
+
+/-- root … `i` -/
+def headOf (fr : List Frame) : Nat → Nat → List Nat
+  | 0, i => [i]
+  | fuel + 1, i =>
+    match overOf fr i with
+    | some o => headOf fr fuel o ++ [i]
+    | none => [i]
+
+/-- `frame.under`: the first declared frame whose over is `i` -/
+def firstUnder (fr : List Frame) (i : Nat) : Option Nat :=
+  (List.range fr.length).find? (fun j => overOf fr j == some i)
+
+def tailOf (fr : List Frame) : Nat → Nat → List Nat
+  | 0, _ => []
+  | fuel + 1, i =>
+    match firstUnder fr i with
+    | some u => u :: tailOf fr fuel u
+    | none => []
+
+/-- the over frames down to `i`, then its primary under frames -/
+def outline (fr : List Frame) (i : Nat) : List Nat := headOf fr fr.length i ++ tailOf fr fr.length i
+
+def acyclic (fr : List Frame) : Bool :=
+  (List.range fr.length).all (fun i => (headOf fr fr.length i).length ≤ fr.length)
+
+/-- `Framer.ExEn(nears, far)`: from the first position where the active outline holds `far` itself or
+differs from `far`'s outline: (exits of the active outline, enters of the far outline) -/
+def exen : List Nat → List Nat → Nat → List Nat × List Nat
+  | n :: ns, f :: fs, far => if n = far ∨ n ≠ f then (n :: ns, f :: fs) else exen ns fs far
+  | _, _, _ => ([], [])
+
+/-- `Framer.checkEnter(enters)`: not empty, and every entry need of every frame to enter holds -/
+def enterOk (w : World) (frames : List Frame) (enters : List Nat) : Bool :=
+  !enters.isEmpty && enters.all (fun j => ((frames[j]?.map (·.guards)).getD []).all (evalGuard w))
+
+/-- `Transiter.action` up to `checkEnter`: the needs hold and the frames to enter admit entry.  A
+transition whose needs hold but which is refused returns `None` before its tract acts run: nothing
+changes and the next transition is tried. -/
+def admits (w : World) (frames : List Frame) (actives : List Nat) (t : Trans) : Bool :=
+  evalNeeds w t.needs && enterOk w frames (exen actives (outline frames t.far) t.far).2
+
+/-- `Frame.precur`: the first transition of one frame that is taken -/
+def firstTrans (w : World) (frames : List Frame) (actives : List Nat) : List Trans → Option Trans
   | [] => none
-  | t :: ts => if evalNeeds w t.needs && enterOk w frames t.far then some t else firstTrans w frames ts
+  | t :: ts => if admits w frames actives t then some t else firstTrans w frames actives ts
 
+/-- `Framer.segue`: `for frame in self.actives: if frame.precur(): return` -/
+def firstOfOutline (w : World) (frames : List Frame) (actives : List Nat) : List Nat → Option Trans
+  | [] => none
+  | m :: ms =>
+    match firstTrans w frames actives ((frames[m]?.map (·.trans)).getD []) with
+    | some t => some t
+    | none => firstOfOutline w frames actives ms
+
+/-- `Frame.enter`: the enact markers (inserted first), then the frame's own enter acts -/
 def enterActs (r : Resolved) (i : Nat) : List Act :=
   ((r.enacts.getD i []).map (Act.marker false)) ++
   ((r.frames[i]?.map (·.enter)).getD []).map Act.write
 
-/-- `Transiter.action` once the needs hold: tracts, exit acts of near, enter acts of far -/
-def fireActs (r : Resolved) (near : Frame) (t : Trans) : List Act :=
-  (t.needs.map (fun n => Act.marker true n.ref)) ++ near.exit.map Act.write ++ enterActs r t.far
+def exitActs (r : Resolved) (i : Nat) : List Act :=
+  ((r.frames[i]?.map (·.exit)).getD []).map Act.write
+
+def recurActs (r : Resolved) (actives : List Nat) : List Act :=
+  actives.flatMap (fun i => ((r.frames[i]?.map (·.recur)).getD []).map Act.write)
+
+/-- `Transiter.action` once it is taken: tracts, exits bottom-up, enters top-down -/
+def fireActs (r : Resolved) (actives : List Nat) (t : Trans) : List Act :=
+  let ee := exen actives (outline r.frames t.far) t.far
+  (t.needs.map (fun n => Act.marker true n.ref)) ++ ee.1.reverse.flatMap (exitActs r) ++ ee.2.flatMap (enterActs r)
 
 structure RState where
   world : World
@@ -431,15 +498,12 @@ outline changed (forced re-entry included).  `first` = the START tick (`enterAll
 otherwise `segue` then `recur`. -/
 def readerActs (r : Resolved) (first : Bool) (s : RState) : List Act × Nat × Bool :=
   if first then
-    (enterActs r 0 ++ ((r.frames[0]?.map (·.recur)).getD []).map Act.write, 0, true)
+    ((outline r.frames 0).flatMap (enterActs r) ++ recurActs r (outline r.frames 0), 0, true)
   else
-    match r.frames[s.active]? with
-    | none => ([], s.active, false)
-    | some near =>
-      match firstTrans s.world r.frames near.trans with
-      | none => (near.recur.map Act.write, s.active, false)
-      | some t =>
-        (fireActs r near t ++ ((r.frames[t.far]?.map (·.recur)).getD []).map Act.write, t.far, true)
+    let actives := outline r.frames s.active
+    match firstOfOutline s.world r.frames actives actives with
+    | none => (recurActs r actives, s.active, false)
+    | some t => (fireActs r actives t ++ recurActs r (outline r.frames t.far), t.far, true)
 
 /-- one tick of the house at store time `now`: writer framer `wb` (before the reader in the tick
 order), the reader, writer framer `wa` (after it).  Returns the new state, whether the reader
